@@ -113,6 +113,9 @@ package evm
 //@   ensures result == nil ==> ctx.GasUsed <= ctx.Tx.Gas || ctx.GasUsed == old(ctx.GasUsed)                 [C16]
 //@   ensures result != xerrors.ErrUnknownTrxType                                                              [C04,C16]
 //@   ensures old(ctx.Receiver.Code) != nil ==> ctx.Receiver.Code != nil                                       [C04,C16]
+//@   assert@store(TrxContext.RetData,0): evmResult != nil                                                     [C09]
+//@   assert@store(TrxContext.RetData,1): evmResult != nil                                                     [C09]
+//@   assert@store(TrxContext.GasUsed,0): evmResult != nil                                                     [C09,C16]
 
 //@ func (ctrler *EVMCtrler) ValidateTrx(ctx)
 //@   implements (ITrxHandler_TrxEVMHandler).ValidateTrx
